@@ -40,6 +40,7 @@ func runC01(c *Ctx) {
 	ruleHTTPWaiter(c, "R1.7")
 	ruleWaiterPayload(c, "R1.9")
 	ruleBoltMemoryCopied(c, "R1.10", 12)
+	ruleHashPin(c, "R1.11")    // a follower verifies under the key of the chain whose recomputed hash the operator named
 	ruleMemDB(c, "R1.8")       // a beacon served for round r is the stored beacon of round r: the in-memory back-end looks rounds up by equality
 	ruleRoundLabels(c, "R1.8") // and the bolt back-ends label a value with the round of the key it was read under
 }
